@@ -574,7 +574,7 @@ class Check:
             q = "select " + ", ".join(sel) + self.from_clause(roots) + " into list"
             qagg = None
             if case["shape"] == "agg":
-                qagg = "select count(*), sum(size), sum(line_count)" + self.from_clause(roots) + " into list"
+                qagg = "select count(*), sum(size), sum(line_count), min(line_count), max(line_count)" + self.from_clause(roots) + " into list"
             kind = case["kind"]
             fkind = kind
             for f in case["faults"]:
@@ -741,7 +741,7 @@ class Check:
                 sb.rebuild() if any("mutate" in f for f in case["faults"]) else None
                 ares = sb.run([qagg], plan=self.plan_with(case))
                 bad = crashy(ares)
-                arow = ares.rows(3)
+                arow = ares.rows(5)
                 want_count = len(ref_rows)
                 want_size = 0
                 want_lines = 0
@@ -752,6 +752,7 @@ class Check:
                 lres = sb.run(["select path, line_count" + self.from_clause(roots) + " into list"], plan=base_plan)
                 # which files were unreadable *in the aggregate run* (its own recorded history decides)
                 agg_fired = set()
+                readable_counts = []
                 for l in ares.log:
                     if " inj:fail" in l and (" open " in l or " read " in l):
                         agg_fired.add(unq(l.split(" ")[3]))
@@ -760,11 +761,13 @@ class Check:
                     if self.link_target(nm, wp) in agg_fired:
                         continue
                     want_lines += int(prow[1] or 0)
+                    if prow[1] != b"":
+                        readable_counts.append(int(prow[1]))
                 if bad or len(arow) != 1:
                     viols.append(Violation(PROP, "C17.B.agg", ["C17.B", "aggregate_abnormal", fkind, "agg"], {"query": qagg, "outcome": ares.summary()}))
                 else:
                     got = [x.decode() for x in arow[0]]
-                    want = [str(want_count), str(want_size), str(want_lines)]
+                    want = [str(want_count), str(want_size), str(want_lines), str(min(readable_counts) if readable_counts else 0), str(max(readable_counts) if readable_counts else 0)]
                     if got != want:
                         viols.append(Violation(PROP, "C17.B.agg", ["C17.B", "aggregate_over_readable_data", fkind, "agg"],
                                                {"query": qagg, "got": got, "want": want, "faults": case["faults"]}))
